@@ -225,6 +225,21 @@ CHECKS["C20"] = dict(
     note="Suspension/resumption and where exceptions surface are language semantics; parameter lifetime across "
          "suspension is a known finding.")
 
+CHECKS["C11"] = dict(
+    technique="algorithm-identity and argument data-flow checks, dominance of length guards over iterator "
+              "dereference / advance, truth tables of the verdict expressions (TABLE), typestate automaton over the "
+              "four first-fit loops, fold-order check, type witnesses",
+    text="range_all_of / none_of / any_of, range_is(range), starts/ends_with(range) are the named standard algorithms over "
+         "both bounded ranges with the element predicate param_matches(comparator, ref(element)); in the element-list "
+         "forms every dereference or advance of the range iterator is dominated by the not-at-end edge and the suffix "
+         "forms advance by size-n only when size>=n; every checker's final verdict equals its specification on all "
+         "valuations; the first-fit loops consume exactly one pending matcher per matched element by swap-remove, "
+         "permutation stops at the first unmatched element and includes does not, with no other exit; element lists "
+         "are folded completely and in order; C arrays are stored as spans, containers by value.",
+    design_ref="DESIGN.md section 4, C11",
+    note="Not decided: which of several overlapping matchers the greedy first fit assigns (the statement defers to the "
+         "documented first-fit), nor anything about concrete multisets.")
+
 NOT_APPLICABLE = {}
 
 
